@@ -13,3 +13,13 @@ fire("C11", "mcx-many-workers-dead-slice",
 silent("C11", "compute_resources-get-plus",
        [(DR, "        gate_counter = Counter()\n        for op, count in raw_gate_counts.items():", "        gate_counter = {}\n        for op, count in raw_gate_counts.items():"),
         (DR, "                gate_counter.update({op: count})", "                gate_counter[op] = gate_counter.get(op, 0) + count")])
+
+# --- branch boundary shared by a rule body and its resource function
+_AO = "pennylane/ops/qubit/arithmetic_ops.py"
+fire("C11", "integer-comparator-lt-resource-boundary-off-by-one",
+     (_AO, "    if value > 2 ** (num_wires - 1) - 1:\n        return {qp.X: 1}\n\n    num_controls = num_wires - 1\n    binary_str = format(value, f\"0{num_controls}b\")\n    last_significant = binary_str.rfind(\"1\")",
+           "    if value >= 2 ** (num_wires - 1) - 1:\n        return {qp.X: 1}\n\n    num_controls = num_wires - 1\n    binary_str = format(value, f\"0{num_controls}b\")\n    last_significant = binary_str.rfind(\"1\")"),
+     "R-C11-count", "_integer_comparator_lt_decomposition")
+silent("C11", "integer-comparator-lt-resource-boundary-rewritten-equivalently",
+       [(_AO, "    if value > 2 ** (num_wires - 1) - 1:\n        return {qp.X: 1}\n\n    num_controls = num_wires - 1\n    binary_str = format(value, f\"0{num_controls}b\")\n    last_significant = binary_str.rfind(\"1\")",
+              "    if value >= 2 ** (num_wires - 1):\n        return {qp.X: 1}\n\n    num_controls = num_wires - 1\n    binary_str = format(value, f\"0{num_controls}b\")\n    last_significant = binary_str.rfind(\"1\")")])
